@@ -141,7 +141,20 @@ pub fn exec_layout(l: &Layout, out: &mut CaseOut) -> Result<(), Fail> {
                 if !s.forget.is_empty() {
                     let i = ((*k as usize) * s.forget.len()) >> 16;
                     let t = s.forget.remove(i);
-                    s.call(Call::Timer(t))?;
+                    let mut before: Vec<Id> = s.inst.foca.iter_members().map(|m| *m.id()).collect();
+                    s.call(Call::Timer(t.clone()))?;
+                    let mut after: Vec<Id> = s.inst.foca.iter_members().map(|m| *m.id()).collect();
+                    before.sort();
+                    after.sort();
+                    // forgetting a Down record must leave the probe rotation's members alone
+                    ensure!(
+                        before == after,
+                        "C14:forget-timer-changed-active-members",
+                        "firing {:?} changed the active members (and so who gets probed) from {:?} to {:?}",
+                        t,
+                        before,
+                        after
+                    );
                 }
             }
         }
@@ -294,7 +307,7 @@ pub fn run(ctx: &Ctx, report: &mut Report) -> EvidenceMeta {
     ctx.run_part(&LayoutPart, report);
     EvidenceMeta {
         level: "exploration",
-        rule: "one instance; members and Down records inserted in a generated order (storage position also depends on the generated RNG seed); a generated prefix of successful/failed probe rounds, joins, members declared Down and forget-timers so that the cursor starts anywhere; then 6n+4 probe rounds with the membership held stable (every Ping is answered by a correct Ack, suspicion timers never fire). Small spaces (n+d<=5 x 256 seeds x 0..3 warm-up rounds) are enumerated completely, larger ones (n<=12 quick / 20 thorough, d<=8) by proptest. Oracle: exactly one Ping per round, to an active member, never a Down record nor the own address; every window of 2n-1 consecutive rounds pings every active member. Non-trivial: at least one Down record and at least one wrap of the cursor while a Down record sits at the first or last storage position; distinct = (n, d, #such wraps, seed class, prefix length)."
+        rule: "one instance; members and Down records inserted in a generated order (storage position also depends on the generated RNG seed); a generated prefix of successful/failed probe rounds, joins, members declared Down and forget-timers so that the cursor starts anywhere (a forget-timer must leave the set of active members untouched); then 6n+4 probe rounds with the membership held stable (every Ping is answered by a correct Ack, suspicion timers never fire). Small spaces (n+d<=5 x 256 seeds x 0..3 warm-up rounds) are enumerated completely, larger ones (n<=12 quick / 20 thorough, d<=8) by proptest. Oracle: exactly one Ping per round, to an active member, never a Down record nor the own address; every window of 2n-1 consecutive rounds pings every active member. Non-trivial: at least one Down record and at least one wrap of the cursor while a Down record sits at the first or last storage position; distinct = (n, d, #such wraps, seed class, prefix length)."
             .into(),
         assumptions: vec!["membership stability is enforced by the harness (correct Acks, no suspicion time-outs)".into()],
     }
